@@ -1,13 +1,91 @@
 import Tmcg.Driver
+import Tmcg.DriverDkg
+import Tmcg.Model.Cgjkr
 /-
   Line-protocol handlers of area "cgjkr": the adaptively secure threshold cryptosystem classes of
   src/CanettiGennaroJareckiKrawczykRabinASTC.cc (RVSS, ZVSS, DKG with share refresh, threshold DSS)
   — properties C15 (refresh keeps secret and key) and C16 (threshold DSS signatures).
-  Filled by the builder of that area.  Line formats: top of harness/drv_cgjkr.cc.
+  Line formats (top of harness/drv_cgjkr.cc):
+    cgjkr.gen n t p q g h (STRONG WEAK DEV){n} => OUT{n}
+        OUT = ret|[QUAL]|x_i|xprime_i|y|[QUAL of x_rvss]|[C_00..C_(n-1)t], `-` (died), `*` (masked: drops broadcasts)
+    cgjkr.refresh n t p q g h [SUB] (x_i xprime_i [C..] [QUAL] STRONG WEAK DEV){n} => OUT{n}
+        OUT = ret|[QUAL]|x_i|xprime_i|[C_00..], `.` (not in SUB), `-` (died), `*` (masked)
 -/
 namespace Tmcg.DriverCgjkr
-open Tmcg Tmcg.Driver
+open Tmcg Tmcg.Driver Tmcg.DriverDkg
 
-def handlers : List (String × Handler) := []
+def masked (d : Dkg.Dev) : Bool := !d.bd.isEmpty
+
+def flat (C : List (List Int)) : List Int := C.flatMap id
+
+def showGenC (P : Dkg.Party Cgjkr.GSt) : String :=
+  match P.err with
+  | some e => s!"exc:{e}"
+  | none =>
+    if P.fs.dead then "-"
+    else if masked P.dev then "*"
+    else
+      let st := P.st
+      match P.status with
+      | .run => "?"
+      | .ret b => s!"{showB b}|{showList st.qual}|{st.x}|{st.xp}|{st.y}|{showList st.xr.qual}|{showList (flat st.xr.C)}"
+
+def hGen : Handler
+  | n :: t :: p :: q :: g :: h :: rest => do
+    let n ← pNat n; let t ← pNat t
+    let p ← pInt p; let q ← pInt q; let g ← pInt g; let h ← pInt h
+    let ins ← pParties 3 n rest
+    some (match Dkg.mkGrp p q g h with
+      | .error e => toString e
+      | .ok G => " ".intercalate ((Cgjkr.runGenC G n t ins).map showGenC))
+  | _ => none
+
+/-- rows of `t+1` entries -/
+def unflat (t : Nat) : Nat → List Int → List (List Int)
+  | 0, _ => []
+  | f + 1, l => l.take (t + 1) :: unflat t f (l.drop (t + 1))
+
+def pRefParties (n t : Nat) : Nat → List String → Option (List Cgjkr.RefIn)
+  | 0, [] => some []
+  | 0, _ => none
+  | f + 1, x :: xp :: c :: ql :: s :: w :: d :: rest => do
+    let x ← pInt x; let xp ← pInt xp; let c ← pIntList c; let ql ← pNatList ql
+    let s ← pIntList s; let w ← pNatList w; let d ← pDev d
+    let r ← pRefParties n t f rest
+    some (⟨x, xp, unflat t n c, ql, ⟨s, w, d, {}⟩⟩ :: r)
+  | _, _ => none
+
+def showRef (P : Dkg.Party Cgjkr.RSt) : String :=
+  match P.err with
+  | some e => s!"exc:{e}"
+  | none =>
+    if P.fs.dead then "-"
+    else if masked P.dev then "*"
+    else
+      let st := P.st
+      match P.status with
+      | .run => "?"
+      | .ret b => s!"{showB b}|{showList st.qual}|{st.x}|{st.xp}|{showList (flat st.C)}"
+
+def hRefresh : Handler
+  | n :: t :: p :: q :: g :: h :: sub :: rest => do
+    let n ← pNat n; let t ← pNat t
+    let p ← pInt p; let q ← pInt q; let g ← pInt g; let h ← pInt h
+    let sub ← pNatList sub
+    let all ← pRefParties n t n rest
+    let ins := sub.map (fun i => all.getD i ⟨0, 0, [], [], ⟨[], [], {}, {}⟩⟩)
+    some (match Dkg.mkGrp p q g h with
+      | .error e => toString e
+      | .ok G =>
+        let ps := Cgjkr.runRefresh G n t sub ins
+        " ".intercalate ((List.range n).map (fun i =>
+          match sub.idxOf? i with
+          | none => "."
+          | some k => match ps[k]? with
+            | some P => showRef P
+            | none => "?")))
+  | _ => none
+
+def handlers : List (String × Handler) := [("cgjkr.gen", hGen), ("cgjkr.refresh", hRefresh)]
 
 end Tmcg.DriverCgjkr
